@@ -74,6 +74,17 @@ def _curated():
     for n in ('I', 'IA', 'Ia', 'Ié'):
         for m in ('', 'm', 'ma'):
             ops.append(['I', n, m, 2])  # the same keys with interned strings
+    # names containing a space: with a doc string they are ordinary names;
+    # without one Element.__init__ takes the name for the doc string and
+    # __name__ becomes None - the *observed* pair is then (None, module), and
+    # equality / hash are judged on it (ordering against a str name raises
+    # TypeError in both implementations and is not judged) - seed C12e
+    for n, m, v, doc in (('I A', 'm', 0, 1), ('I A', 'm', 1, 1),
+                         ('I', 'm', 0, 1), ('I B', 'm', 0, 1),
+                         ('I A', 'm', 0, 0), ('I B', 'm', 0, 0),
+                         ('x y', 'm', 1, 0), ('I A', 'ma', 0, 0),
+                         ('I A', '', 2, 0)):
+        ops.append(['I', n, m, v, doc])
     for cn, cm, v in (('C', 'm', 0), ('C', 'm', 1), ('D', 'm', 0),
                       ('C', 'ma', 0), ('I', '', 0)):
         ops.append(['S', cn, cm, v])
@@ -156,7 +167,8 @@ class _Builder:
                 # object)
                 name = sys.intern(name)
                 mod = sys.intern(mod)
-            ob = InterfaceClass(name, (Interface,), {}, __module__=mod)
+            attrs = {'__doc__': 'doc'} if len(op) > 4 and op[4] else {}
+            ob = InterfaceClass(name, (Interface,), attrs, __module__=mod)
         elif op[0] == 'S':
             cls = type(op[1], (), {'__module__': op[2]})
             ob = implementedBy(cls)
@@ -172,6 +184,8 @@ class _Builder:
 
 def _key(op):
     if op[0] == 'I':
+        if ' ' in op[1] and not (len(op) > 4 and op[4]):
+            return (None, op[2])
         return (op[1], op[2])
     if op[0] == 'S':
         name = '%s.%s' % (op[2] or '?', op[1])
@@ -180,6 +194,8 @@ def _key(op):
 
 
 def _related(ka, kb):
+    if ka[0] is None or kb[0] is None:
+        return True
     return (ka[0] == kb[0] or ka[1] == kb[1] or ka[0].startswith(kb[0]) or
             kb[0].startswith(ka[0]))
 
@@ -226,7 +242,12 @@ def _pair_case(case, out):
         if _related(ka, kb) or a_op[0] != b_op[0]:
             out.nontrivial = True
         mixed_or_spec = 'S' in (a_op[0], b_op[0])
+        if (a.__name__, a.__module__) != ka:
+            out.fail('observed-key', '%r has (__name__, __module__) %r, '
+                     'expected %r' % (a_op, (a.__name__, a.__module__), ka))
         for sym in ('<', '<=', '>', '>='):
+            if (ka[0] is None) != (kb[0] is None):
+                break   # None against str: not an order, see _curated
             out.checks += 1
             want = TUPLE_OPS[sym](ka, kb)
             got = _try(OPS[sym], a, b)
